@@ -2,7 +2,7 @@
    Statements only; proofs in Proofs/MidiProofs.v.  The bytes are written by mido (trusted, read back by
    an independent SMF reader in the correspondence); the theorems are about the message lists handed to it. *)
 From ML Require Import Model.Types gen.Tables Model.Pitch Model.Rel Model.Render Model.Midi Spec.RenderSpec.
-From ML Require Import Proofs.RenderProofs Proofs.MidiProofs.
+From ML Require Import Proofs.RenderProofs Proofs.MidiProofs Proofs.ChannelProofs.
 From Coq Require Import Permutation.
 Open Scope Z_scope.
 Open Scope list_scope.
@@ -39,6 +39,16 @@ Proof. exact ticks_exact. Qed.
 Theorem C07_grouping : forall names t1 t2, (t1 < length names)%nat -> (t2 < length names)%nat ->
   (new_track names t1 = new_track names t2 <-> program_of (nth t1 names ""%string) = program_of (nth t2 names ""%string)).
 Proof. exact same_track_iff_same_program. Qed.
+
+(* channels: two different programs of a score never share a channel and a pitched program is never on the drum channel 9;
+   with at most 15 programs (the implicit piano slot included) every channel is a MIDI channel 0..15 *)
+Theorem C07_channels_distinct : forall progs p1 p2, (p1 = 0 \/ In p1 progs) -> (p2 = 0 \/ In p2 progs) -> p1 <> p2 ->
+  channel_of progs false p1 <> channel_of progs false p2 /\ channel_of progs false p1 <> 9.
+Proof. exact channels_distinct. Qed.
+
+Theorem C07_channels_in_range : forall progs p, (p = 0 \/ In p progs) -> (length (instrument_list progs) <= 15)%nat ->
+  0 <= channel_of progs false p <= 15.
+Proof. exact channels_in_range. Qed.
 
 (* the generated instrument table: the program numbers of the instruments used as examples in the docs *)
 Example C07_ex_programs : map program_of ["piano"; "violin"; "flute"; "cello"; "trumpet"; "drums_0"; "nonexistent"]%string
